@@ -1458,13 +1458,20 @@ def m_fold(E, st, f, a, k, e):
 
 @model(ITER + 'try_for_each')
 def m_try_for_each(E, st, f, a, k, e):
+    tys = [x for x in f.get('args', []) if x.get('k') == 'adt' and x.get('path') in ('core::option::Option', 'core::result::Result')]
+    is_opt = bool(tys) and tys[-1]['path'] == 'core::option::Option'
+
     def body(s, x):
         def got(s2, r):
             if isinstance(r, tuple) and r[0] == 'agg' and r[1] == 'core::result::Result':
                 return k(s2, r if r[2] == 'Err' else OK(UNIT))
+            if isinstance(r, tuple) and r[0] == 'agg' and r[1] == 'core::option::Option':
+                return k(s2, NONE if r[2] == 'None' else SOME(UNIT))
+            if is_opt:
+                return E.match_option(s2, r, lambda s3, y: k(s3, SOME(UNIT)), lambda s3: k(s3, NONE))
             E.match_result(s2, r, lambda s3, y: k(s3, OK(UNIT)), lambda s3, y: k(s3, ERR(y)))
         E.call_closure(s, a[1], [x], got)
-    _two_way(E, st, a[0], lambda s: k(s, OK(UNIT)), body)
+    _two_way(E, st, a[0], lambda s: k(s, SOME(UNIT) if is_opt else OK(UNIT)), body)
 
 
 @model(ITER + 'next')
